@@ -202,6 +202,8 @@ fn add_wrappers(text: &str) -> Result<String, String> {
 }
 
 pub struct Corpus {
+    /// (id, text as written, without the wrapper rules)
+    pub raw_texts: Vec<(String, String)>,
     pub grammars: Vec<GrammarSrc>,
     pub rejected: Vec<(String, String)>,
 }
@@ -249,11 +251,12 @@ pub fn load(corpus_dir: &Path, repo: &Path, thorough: bool, seed: u64) -> Corpus
     }
     let mut grammars = Vec::new();
     let mut rejected = Vec::new();
+    let raw_texts = raw.iter().map(|g| (g.id.clone(), g.text.clone())).collect();
     for g in raw {
         match add_wrappers(&g.text) {
             Ok(text) => grammars.push(GrammarSrc { text, ..g }),
             Err(e) => rejected.push((g.id, e)),
         }
     }
-    Corpus { grammars, rejected }
+    Corpus { raw_texts, grammars, rejected }
 }
